@@ -188,6 +188,7 @@ func (b *backendTransitionSessionHandler) handleJoinGame(pc *proto.PacketContext
 		b.serverConn.player.mu.Unlock()
 		existingConn.disconnect()
 
+		verifhook.Point("sw.switching", "player", b.serverConn.player.profile.Name)
 		// Send keep alive to try to avoid timeouts
 		if err := netmc.SendKeepAlive(b.serverConn.player); err != nil {
 			failResult("could not send keep alive packet, player might have disconnected: %w", err)
